@@ -1,6 +1,6 @@
 (* C31 -- lemmas over Q: rounding, index <-> coordinate, volumes. *)
 From Coq Require Import ZArith QArith Qround Qabs List Bool Lia Lqa.
-Require Import NV.C31.Prim NV.C31.Gen_Index NV.C31.Model.
+Require Import NV.C31.Prim NV.C31.Gen_Index NV.C31.Model NV.C31.Proofs.
 
 Lemma rint_compat (p q : Q) : (p == q)%Q -> rint p = rint q.
 Proof.
@@ -130,7 +130,7 @@ Lemma fraction_step (shp shifts si pd : Z) :
   0 < si -> 0 <= pd -> 0 <= shifts -> 0 < shp ->
   let st := gen_open_at_step shp shifts si pd in
   fst st * (shp + 2 * shifts) <= shp * (fst st + 2 * snd st).
-Proof. intros. cbv [st gen_open_at_step fst snd]. nia. Qed.
+Proof. intros. subst st. rewrite open_at_step_val. cbv [fst snd]. nia. Qed.
 
 (* products of such per-axis inequalities: quadruples (a, b, c, d) with a*d <= c*b *)
 Definition q4a (q : Z * Z * Z * Z) : Z := fst (fst (fst q)).
